@@ -286,29 +286,30 @@ def r13d(run):
              for kw in c.keywords if kw.arg == "additionalProperties"]
     run.floor("R13d", "additionalProperties emissions", len(sites), 2)
     src = [n for n in ga.cfg.nodes if n.kind == "stmt" and isinstance(n.ast, ast.Assign)
-           and unparse(n.ast.targets[0]) == "addition"]
+           and isinstance(n.ast.targets[0], ast.Name) and unparse(n.ast.value).endswith(".addition")]
     ok = bool(src) and all(unparse(n.ast.value) == "options.addition" for n in src)
     run.check("R13d", g, "the addition policy is read from the view's options", ok, construct="addition source",
               message="generate_for_dataclass does not read `options.addition`",
               necessity="additionalProperties reflects another object's policy")
+    A = src[0].ast.targets[0].id if src else "addition"      # the local holding the policy (any name)
     typed = lit = 0
     for n, c, kw in sites:
         fs = _facts(ga, n)
-        nn = ("addition is not None", True) in fs or ("addition is None", False) in fs
+        nn = (f"{A} is not None", True) in fs or (f"{A} is None", False) in fs
         run.check("R13d", g, "additionalProperties is emitted only when a policy is set", nn,
                   construct="additionalProperties without policy", message=f"`{unparse(c)[:70]}` is not guarded by "
-                  f"`addition is not None`", necessity="the default policy (ignore unknown keys) is published as "
+                  f"`{A} is not None`", necessity="the default policy (ignore unknown keys) is published as "
                   "`additionalProperties: null`, which is not a valid schema", node=c)
         v = kw.value
-        if isinstance(v, ast.Call) and call_attr(v) == "generate_for_type" and unparse(v.args[0]) == "addition":
+        if isinstance(v, ast.Call) and call_attr(v) == "generate_for_type" and unparse(v.args[0]) == A:
             typed += 1
-            ok = ("isinstance(addition, type)", True) in fs
+            ok = (f"isinstance({A}, type)", True) in fs
             run.check("R13d", g, "a typed policy is published as that type's schema", ok,
                       construct="typed additionalProperties guard", message="the schema form of additionalProperties is "
-                      "not guarded by isinstance(addition, type)", node=c)
-        elif unparse(v) == "addition":
+                      f"not guarded by isinstance({A}, type)", node=c)
+        elif unparse(v) == A:
             lit += 1
-            ok = ("isinstance(addition, type)", False) in fs
+            ok = (f"isinstance({A}, type)", False) in fs
             run.check("R13d", g, "a boolean policy is published literally (false = rejected, true = kept)", ok,
                       construct="literal additionalProperties guard", message="the literal form of additionalProperties "
                       "is not restricted to non-type policies", node=c)
